@@ -82,6 +82,22 @@ func runCell(c *vk.Ctx, ce cell, idx int) *outcome {
 			})
 		}
 	}
+	if idx%2 == 1 {
+		// every second cell: the application reacts to the first error the session reports (OnError) by sending a
+		// notice through the session — during a teardown such errors are the session's own sends that fail
+		prev := cfg.OnSession
+		cfg.OnSession = func(h *simplefixgo.DefaultHandler, s *session.Session) {
+			if prev != nil {
+				prev(h, s)
+			}
+			var reacted int32
+			s.OnError(func(error) {
+				if atomic.CompareAndSwapInt32(&reacted, 0, 1) {
+					_ = s.Send(fixgen.CreateMarketDataRequestReject("error-notice"))
+				}
+			})
+		}
+	}
 	f, err := rig.StartFull(cfg)
 	if err != nil {
 		o.setupFailed = "rig: " + err.Error()
